@@ -42,8 +42,12 @@ class SetupCfgWriter(DependencyWriter):
             logger.debug("Unable to add dependencies to setup.cfg file.")
             return None
 
-        with open(self.path, "r", encoding="utf-8") as f:
-            original_lines = f.readlines()
+        try:
+            with open(self.path, "r", encoding="utf-8") as f:
+                original_lines = f.readlines()
+        except Exception:
+            logger.debug("Unable to read setup.cfg file.")
+            return None
 
         # a last line without newline would be glued to the added requirement
         if original_lines and not original_lines[-1].endswith("\n"):
